@@ -159,7 +159,7 @@ func c08Judge(c *mon.Ctx, in *progInput) {
 	dbg := &frameDebugger{c: c, in: in}
 	opts = append(opts, interpreter.WithDebugger(dbg))
 	var libErr error
-	if !c.Try("interpreter.Engine.Execute", func() { libErr = interpreter.NewEngine().Execute(opts...) }) {
+	if !c.Try("interpreter.Engine.Execute", func() { libErr = theEngine(c).Execute(opts...) }) {
 		return
 	}
 	c.CountN("C08:frame-checks", dbg.checks)
@@ -234,7 +234,7 @@ func c08JudgeSig(c *mon.Ctx, cs *c06Case) {
 	dbg := &frameDebugger{c: c, in: in}
 	var libErr error
 	if !c.Try("interpreter.Engine.Execute", func() {
-		libErr = interpreter.NewEngine().Execute(interpreter.WithTx(tx, cs.Idx, prev), interpreter.WithFlags(scriptflag.Flag(cs.Flags)), interpreter.WithDebugger(dbg))
+		libErr = theEngine(c).Execute(interpreter.WithTx(tx, cs.Idx, prev), interpreter.WithFlags(scriptflag.Flag(cs.Flags)), interpreter.WithDebugger(dbg))
 	}) {
 		return
 	}
